@@ -496,6 +496,14 @@ func universal(sc *Scn, x *vrt.Sched, w *World) []Finding {
 				add("C10", "an Unbind request is passed to a handler that is not the unbind route's", fmt.Sprintf("message %d dispatched to the %s handler", d.MsgID, d.Route))
 			}
 		}
+		// a client that reads until the server closes: the answers of the requests in front of the Unbind reach it
+		if cs.Read == "all" && cs.RecvBuf == 0 && cs.ReadFor == 0 && (cs.End == "" || cs.End == "close") && sp.Srv.WriteTimeout == 0 && sp.Srv.ReadTimeout == 0 && sp.StopWhen == "" {
+			for _, wr := range w.Writes {
+				if clientOfMsg(wr.MsgID) == ci && reqOfMsg(wr.MsgID) < u && !wr.OK {
+					add("C10", "after an Unbind the session is shut down before an earlier in-flight handler has answered (its Write fails although the client is still reading)", fmt.Sprintf("message %d of client %d", wr.MsgID, ci+1))
+				}
+			}
+		}
 		ran := 0
 		for _, d := range w.Dispatch {
 			if clientOfMsg(d.MsgID) == ci && (d.Route == "unbind" || d.Route == "unbind-replaced") {
